@@ -134,6 +134,9 @@ func (ex *Exec) harnessCall(fr *frame, fn *ssa.Function, args []Value) Value {
 		return nil
 	case "verifNativeRepeat":
 		return i64(1)
+	case "verifAdvanceClock":
+		// time.Now is already an arbitrary non-decreasing instant at every call
+		return nil
 	case "verifMode":
 		ex.modes[argStr(args[0])] = true
 		return nil
